@@ -338,34 +338,37 @@ def syncrace_stage(run):
     iwkv_db / iwkv_new_db make their savepoint under the store's exclusive lock but without the log mutex, the backup
     flushes the log buffer on entering WAL_COPY1 under the log mutex alone: both work on wal->buf / bufpos (the sync's
     savepoint can be overwritten or flushed twice; 'the live store is unaffected by the backup' is then a matter of luck).
-    Reported by the detector on the unrepaired tree; judged only with VERIF_WAL_SYNCRACE=1 until
-    fixes/wal-savepoint-under-log-mutex.diff is in /repo"""
+    Reported by the detector on a tree without c8bdb63 (known_findings C08-c8bdb63, fixes/wal-savepoint-under-log-mutex.diff)"""
     import re, subprocess
     try:
         exe = vlib.build_harness("h_syncrace", "tsan")
     except Exception as e:
         run.notes.append("race detector build not available: %s" % str(e)[:120])
         return
-    wd = tempfile.mkdtemp(prefix="syncrace-", dir="/dev/shm" if os.path.isdir("/dev/shm") else None)
-    try:
-        r = subprocess.run([exe, wd, "12" if run.tier == "quick" else "200"], capture_output=True, text=True, timeout=600)
-        out, err = r.stdout.strip(), r.stderr
-    except subprocess.TimeoutExpired:
-        out, err = "timeout", ""
-    finally:
-        shutil.rmtree(wd, ignore_errors=True)
+    out, err, hit, races = "", "", False, []
+    for attempt in range(3 if run.tier == "quick" else 12):       # whether the detector sees the pair depends on the interleaving
+        wd = tempfile.mkdtemp(prefix="syncrace-", dir="/dev/shm" if os.path.isdir("/dev/shm") else None)
+        try:
+            r = subprocess.run([exe, wd, "20"], capture_output=True, text=True, timeout=600)
+            out, err = r.stdout.strip(), r.stderr
+        except subprocess.TimeoutExpired:
+            out, err = "timeout", ""
+        finally:
+            shutil.rmtree(wd, ignore_errors=True)
+        races = [m for m in re.findall(r"SUMMARY: ThreadSanitizer: data race .*", err) if "iwal.c" in m]
+        hit = bool(("_savepoint_exl" in err or "iwal_savepoint_exl" in err) and "iwal_online_backup" in err and races)
+        if hit or not out.startswith("R backups=") or " rc=0 " not in out + " ":
+            break
     run.case("syncrace:%s" % out[:60], nontrivial=True)
-    races = [m for m in re.findall(r"SUMMARY: ThreadSanitizer: data race [^\n]*", err) if "iwal.c" in m]
-    hit = ("_savepoint_exl" in err or "iwal_savepoint_exl" in err) and "iwal_online_backup" in err and races
     run.dist("savepoint_vs_backup_flush_race_%s" % ("reported_by_detector" if hit else "not_reported"))
     bad = None
     if not out.startswith("R backups=") or " rc=0 " not in out + " ":
         bad = "backups under a syncing writer: %s" % out[:200]
-    elif hit and os.environ.get("VERIF_WAL_SYNCRACE") == "1":
+    elif hit:
         bad = ("data race on the log buffer between iwkv_sync's savepoint (no log mutex) and the backup's _flush_wl on entering WAL_COPY1 "
                "(log mutex only): %s" % races[0][:160])
     if bad:
-        run.violation({"harness": "h_syncrace", "commands": ["h_syncrace <dir> 12"], "answer": out, "class": "savepoint-backup-race"}, bad)
+        run.violation({"harness": "h_syncrace", "commands": ["h_syncrace <dir> 20"], "answer": out, "class": "savepoint-backup-race"}, bad)
 
 
 def check(run):
